@@ -12,6 +12,7 @@ J('pipe.b2.m2.p2', 2, 2, 2, 1, 1, fixed=True)
 J('pipe.b2.m1.p1.P2', 2, 1, 1, 2, 2, tier='thorough', to=3400)
 J('pipe.b1.m1.p1.P2', 1, 1, 1, 2, 2, tier='thorough', to=3400)
 J('pipe.b2.m2.p2.P2', 2, 2, 2, 2, 1, tier='thorough', fixed=True, to=3400)
+JOBS.append(Job('pipe.relife', 'C10/pipe.cpp', 'h_pipe_relife', 'B', defs={'BUFSZ': 2, 'MAXNUM': 2, 'PRODUCERS': 1}, opts={'preempt': 1, 'timeouts': 1}, reach=['pipe_relife'], timeout=1700, clause='initialize - append - cleanup - initialize - append (1-3 bytes) - cleanup on one object: both lives deliver everything, <= 1 preemption, <= 1 early timed-wait expiry'))
 META = dict(
     explanation='The real util/async_pipe.cpp (producer side, background thread, cleanup) is executed by engine/symir.py with its thread scheduler: every std::mutex / condition-variable / std::thread operation and every atomic access is a scheduling point where the next thread is a symbolic choice; the engine forks over all enabled threads within a preemption bound, '
                 'timed waits may expire early within a bound and always expire when nothing else can run; a state in which an unfinished thread can never run again is reported as a deadlock (cleanup never returns). Every plain load/store of heap/global memory is checked with vector clocks (thread start/join, unlock->lock, atomics): an unordered conflicting pair is a data race, '
